@@ -32,7 +32,9 @@ func (c *parCache) Do(key interface{}, f func() interface{}) interface{} {
 		entryIface, _ = c.m.LoadOrStore(key, new(cacheEntry))
 	}
 	e := entryIface.(*cacheEntry)
+	verifYield("par:after-load")
 	if atomic.LoadUint32(&e.done) == 0 {
+		verifYield("par:before-lock")
 		e.mu.Lock()
 		if atomic.LoadUint32(&e.done) == 0 {
 			e.result = f()
